@@ -349,6 +349,13 @@ def run_one(algo: str, rep_name: str, gname: str, seed: int, budget: int, own_tr
                                      population_initializer=InjectInitialPopulationWrapper(_SHARED_SEED_PROGRAMS[(gname, seed)], GrowInitializer()), **kw)
         elif algo == "gpmo":
             alg = GeneticProgramming(problem, b, rep, random=r, population_size=8)
+        elif algo == "gpx":
+            # every pair is crossed over and every child mutated straight afterwards (a child is not looked at in between)
+            from geneticengine.algorithms.gp.operators.combinators import SequenceStep as _Seq
+            from geneticengine.algorithms.gp.operators.crossover import GenericCrossoverStep as _X
+            from geneticengine.algorithms.gp.operators.mutation import GenericMutationStep as _M
+            from geneticengine.algorithms.gp.operators.selection import TournamentSelection as _T
+            alg = GeneticProgramming(problem, b, rep, random=r, population_size=8, step=_Seq(_T(2), _X(1.0), _M(1.0)), **kw)
         elif algo == "rs":
             alg = RandomSearch(problem, b, rep, random=r, **kw)
         elif algo == "hc":
@@ -365,6 +372,13 @@ def run_one(algo: str, rep_name: str, gname: str, seed: int, budget: int, own_tr
 
 def main():
     configs = json.loads(sys.argv[1])
+    if os.environ.get("C08_LOG") == "debug":
+        # the library's loggers at DEBUG (a user chasing a problem): diagnostics are written, the search is the same search
+        import logging
+        lg = logging.getLogger("geneticengine")
+        lg.setLevel(logging.DEBUG)
+        lg.addHandler(logging.NullHandler())
+        lg.propagate = False
     out = {}
     for (algo, rep_name, gname, seed, budget) in configs:
         key = f"{algo}/{rep_name}/{gname}/{seed}"
